@@ -128,7 +128,7 @@ example : exState.raw = exState.rawJSON ∧ (∀ k ∈ exState.socks, k.cid < ex
     (changeTo exNew exEnv exState).2 = .errStart ∧ httpBindExcluded exNew exEnv = false ∧
     answers exState = [(0, 1), (1, 2)] := by decide
 -- … and the failing attempt really started (and stopped) an app before being rejected
-example : ((changeTo exNew exEnv exState).1.events.filter
+example : ((changeTo exNew exEnv exState).1.aevents.filter
     (fun ev => ev = .started 1 0 ∨ ev = .stop 1 0 ∨ ev = .startFail 1 1)).length = 3 := by decide
 -- an accepted attempt over a running config
 example : (changeTo ⟨0, [], [⟨0, 5, 0, [2], []⟩]⟩ exEnv exState).2 = .ok ∧
